@@ -222,6 +222,8 @@ impl<Db: Database> StorageManager<Db> {
         .await?;
         self.increment_metric(METRIC_BATCH_SET);
 
+        #[cfg(akd_verif)]
+        crate::verif_hooks::sim_point("fill").await;
         // update the cache, only once the database has accepted the write: otherwise a failed
         // commit leaves the new epoch (and its nodes) being served from the cache
         if let Some(cache) = &self.cache {
@@ -275,6 +277,8 @@ impl<Db: Database> StorageManager<Db> {
             .await?;
         self.increment_metric(METRIC_SET);
 
+        #[cfg(akd_verif)]
+        crate::verif_hooks::sim_point("fill").await;
         // update the cache, only once the database has accepted the write
         if let Some(cache) = &self.cache {
             cache.put(&record).await;
@@ -305,6 +309,8 @@ impl<Db: Database> StorageManager<Db> {
         .await?;
         self.increment_metric(METRIC_BATCH_SET);
 
+        #[cfg(akd_verif)]
+        crate::verif_hooks::sim_point("fill").await;
         // update the cache, only once the database has accepted the write
         if let Some(cache) = &self.cache {
             cache.batch_put(&records).await;
@@ -343,6 +349,8 @@ impl<Db: Database> StorageManager<Db> {
         }
 
         let record = self.get_direct::<St>(id).await?;
+        #[cfg(akd_verif)]
+        crate::verif_hooks::sim_point("fill").await;
         if let Some(cache) = &self.cache {
             // cache the result
             cache.put(&record).await;
@@ -385,6 +393,8 @@ impl<Db: Database> StorageManager<Db> {
         let record = self
             .tic_toc(METRIC_READ_TIME, self.db.get::<St>(id))
             .await?;
+        #[cfg(akd_verif)]
+        crate::verif_hooks::sim_point("fill").await;
         if let Some(cache) = &self.cache {
             // cache the result
             cache.put(&record).await;
@@ -438,6 +448,8 @@ impl<Db: Database> StorageManager<Db> {
                 .tic_toc(METRIC_READ_TIME, self.db.batch_get::<St>(&keys))
                 .await?;
 
+            #[cfg(akd_verif)]
+            crate::verif_hooks::sim_point("fill").await;
             // cache the db returned results
             if let Some(cache) = &self.cache {
                 cache.batch_put(&results).await;
